@@ -32,7 +32,7 @@ ASSUMPTIONS = ["sub-fibers are never attached by hand (append / __setitem__ of a
                "histories continue on a transform result only while it keeps integer coordinates"]
 
 MUT = ["ref", "ref", "ref", "populate", "populate", "denseref", "assign", "clear", "positionRef"]
-TRANS = ["deepcopy", "splitUniform", "splitEqual", "splitNonUniform", "splitUnEqual", "swizzle", "swap",
+TRANS = ["fromFiber_owned", "deepcopy", "splitUniform", "splitEqual", "splitNonUniform", "splitUnEqual", "swizzle", "swap",
          "flatten_unflatten", "merge", "t_updateCoords", "t_updatePayloads", "yaml"]
 READ = ["eq", "union", "uncompress", "print", "format"]
 
@@ -140,6 +140,11 @@ def do_transform(m, o, rec):
     depth = o["sel"][0] % d
     ids, shape = list(m.spec["rank_ids"]), list(m.shape)
     has_elems = len(t.getRoot().coords) > 0
+    if k == "fromFiber_owned":
+        # another tensor built from the root of this one gets a copy; this one must stay as it is
+        r = Tensor.fromFiber(list(ids), t.getRoot(), shape=list(shape), default=m.default)
+        r.setMutable(True)
+        return r, ids, shape
     if k == "deepcopy":
         return copy.deepcopy(t), ids, shape
     if k == "yaml":
